@@ -28,6 +28,7 @@ type gate struct {
 	Kind  string // bool | string | int | duration | strings | ints
 	Value string // YAML scalar / flow sequence as written into the config file
 	Class string // short name of the value for signatures
+	Iso   bool   // zero / negative / very large number: the start runs in a child process (it may take the process down)
 }
 
 // keys that are not gates, with the reason (reported in the evidence)
@@ -143,6 +144,7 @@ func flagKind(f *pflag.Flag) string {
 func gateValues(key, kind string) []gate {
 	q := func(s string) string { return fmt.Sprintf("%q", s) }
 	mk := func(class, yaml string) gate { return gate{Key: key, Kind: kind, Value: yaml, Class: class} }
+	iso := func(class, yaml string) gate { return gate{Key: key, Kind: kind, Value: yaml, Class: class, Iso: true} }
 	name := key[strings.LastIndex(key, ".")+1:]
 	// what a string holds, judged by its name
 	alt, altClass := "x", "other"
@@ -168,17 +170,19 @@ func gateValues(key, kind string) []gate {
 	case "bool":
 		return []gate{mk("true", "true"), mk("false", "false")}
 	case "string":
-		vals := []gate{mk("empty", `""`), mk(altClass, q(alt))}
+		vals := []gate{mk("empty", `""`), mk(altClass, q(alt)), mk("blank", `" "`)}
 		if key == "http.public.address" {
 			vals = []gate{mk("same-as-internal", q("{INTERNAL}"))}
 		}
 		return vals
 	case "int":
-		// no zero / negative numbers: several of them are ticker intervals and time.NewTicker panics on a non-positive interval in a
-		// bare goroutine (goldenhammer.interval=0 kills the node that way) — a crash, not a verdict
-		return []gate{mk("1", "1"), mk("1000", "1000")}
+		// value classes of a number: zero (documented for several options as "off": http.cache.maxbytes=0 disables the cache), the
+		// smallest positive value, an ordinary one, negative, the largest 32- and 64-bit values. Several numbers are ticker intervals and
+		// time.NewTicker panics on a non-positive interval in a bare goroutine (goldenhammer.interval=0 kills the node that way): the
+		// zero / negative / huge classes therefore run in a child process; a crash there is an observation, not a verdict
+		return []gate{mk("1", "1"), mk("1000", "1000"), iso("0", "0"), iso("-1", "-1"), iso("max-int32", "2147483647"), iso("max-int64", "9223372036854775807")}
 	case "duration":
-		return []gate{mk("1s", "1s"), mk("1h", "1h")}
+		return []gate{mk("1s", "1s"), mk("1h", "1h"), iso("0", "0s"), iso("-1s", "-1s"), iso("1ns", "1ns"), iso("max", "2562047h")}
 	case "strings":
 		return []gate{mk("empty-list", "[]"), mk("one:"+altClass, "["+q(alt)+"]"), mk("list-of-empty", `[""]`)}
 	case "ints":
@@ -230,15 +234,62 @@ func insecureSingles() []nodeCfg {
 }
 
 func gateCase(c nodeCfg, g gate) nodeCase {
-	nc := nodeCase{Kind: "gating", Cfg: c, Flag: g.Key + "=" + g.Class}
-	nc.Spec.File = yamlRaw(g.Key, g.Value)
-	// options that the starter normally sets through the environment (which would win over the file)
-	for _, owned := range []string{"network.grpcaddr", "http.public.address", "verbosity", "network.enablediscovery"} {
-		if g.Key == owned {
-			nc.Spec.Unset = append(nc.Spec.Unset, envName(owned))
+	return gateCaseN(c, g)
+}
+
+// gateCaseN: one configuration under one value each of one or more (distinct) gating keys.
+func gateCaseN(c nodeCfg, gs ...gate) nodeCase {
+	nc := nodeCase{Kind: "gating", Cfg: c}
+	var flags []string
+	tree := map[string]any{}
+	for _, g := range gs {
+		flags = append(flags, g.Key+"="+g.Class)
+		nc.Iso = nc.Iso || g.Iso
+		yamlPut(tree, strings.Split(g.Key, "."), g.Value)
+		// options that the starter normally sets through the environment (which would win over the file)
+		for _, owned := range []string{"network.grpcaddr", "http.public.address", "verbosity", "network.enablediscovery"} {
+			if g.Key == owned {
+				nc.Spec.Unset = append(nc.Spec.Unset, envName(owned))
+			}
 		}
 	}
+	nc.Flag = strings.Join(flags, " & ")
+	nc.Spec.File = yamlTree(tree, 0)
 	return nc
+}
+
+// yamlPut / yamlTree: several dotted keys with already formatted YAML values merged into one document. A key that is both a value
+// and a prefix of another key of the same case cannot be expressed (does not occur among the node's keys: asserted by the caller).
+func yamlPut(tree map[string]any, path []string, value string) {
+	if len(path) == 1 {
+		tree[path[0]] = value
+		return
+	}
+	sub, ok := tree[path[0]].(map[string]any)
+	if !ok {
+		sub = map[string]any{}
+		tree[path[0]] = sub
+	}
+	yamlPut(sub, path[1:], value)
+}
+
+func yamlTree(tree map[string]any, depth int) string {
+	var keys []string
+	for k := range tree {
+		keys = append(keys, k)
+	}
+	sort.Strings(keys)
+	var sb strings.Builder
+	for _, k := range keys {
+		sb.WriteString(strings.Repeat("  ", depth) + k + ":")
+		switch v := tree[k].(type) {
+		case string:
+			sb.WriteString(" " + v + "\n")
+		case map[string]any:
+			sb.WriteString("\n" + yamlTree(v, depth+1))
+		}
+	}
+	return sb.String()
 }
 
 // yamlRaw renders one dotted key with an already formatted YAML value.
@@ -275,6 +326,7 @@ func sectionGating(t *testing.T, r *ev.Run) {
 	}
 	needDummyVP(t)
 	idx := 0
+	var isolated []nodeCase
 	for _, c := range singles {
 		for _, g := range gates {
 			idx++
@@ -284,7 +336,72 @@ func sectionGating(t *testing.T, r *ev.Run) {
 			if r.Expired() {
 				return
 			}
-			runCfgCase(t, r, gateCase(c, g))
+			nc := gateCase(c, g)
+			if nc.Iso {
+				isolated = append(isolated, nc)
+				continue
+			}
+			runCfgCase(t, r, nc)
 		}
+	}
+	runIsolatedBatch(t, r, isolated)
+	if !r.Thorough() {
+		return
+	}
+	// thorough: PAIRS of gating keys, each at a value of its zero / empty / off class (both values of a boolean), next to every
+	// insecure single setting and the strict baseline with dummy means
+	var off []gate
+	for _, g := range gates {
+		switch {
+		case g.Kind == "bool", g.Class == "empty", g.Class == "0", g.Class == "empty-list":
+			off = append(off, g)
+		}
+	}
+	npairs := 0
+	isolated = nil
+	for i := range off {
+		for j := i + 1; j < len(off); j++ {
+			if off[i].Key == off[j].Key || strings.HasPrefix(off[j].Key, off[i].Key+".") || strings.HasPrefix(off[i].Key, off[j].Key+".") {
+				continue
+			}
+			npairs++
+			for _, c := range singles {
+				idx++
+				if !r.Mine(idx) {
+					continue
+				}
+				nc := gateCaseN(c, off[i], off[j])
+				if nc.Iso {
+					isolated = append(isolated, nc)
+					continue
+				}
+				if r.Expired() {
+					return
+				}
+				runCfgCase(t, r, nc)
+			}
+		}
+	}
+	r.Bound("gating_pairs_of_off_values", npairs)
+	r.Bound("gating_pair_cases", npairs*len(singles))
+	runIsolatedBatch(t, r, isolated)
+}
+
+// runIsolatedBatch runs isolated cases in child processes, in batches (a batch = one child process unless it dies), and judges them.
+func runIsolatedBatch(t *testing.T, r *ev.Run, cases []nodeCase) {
+	const batch = 48
+	for len(cases) > 0 {
+		if r.Expired() {
+			return
+		}
+		n := len(cases)
+		if n > batch {
+			n = batch
+		}
+		out := runIsolated(t, cases[:n])
+		for i, o := range out {
+			judgeCfgCase(r, cases[i], o.Res, o.Obs)
+		}
+		cases = cases[n:]
 	}
 }
